@@ -2,11 +2,518 @@
   C01-T3: the relative-interval walk (`relative_interval_to_parent_location`) meets `Spec.okRelint`.
 -/
 import BioCantor.Proofs.Common
+import BioCantor.Proofs.RelBasics
+import BioCantor.Proofs.RelCombine
+import BioCantor.Proofs.RelWalk
 namespace BioCantor.Proofs
 open BioCantor BioCantor.Spec BioCantor.Model
 
+/-! ### readings on a strand vs. `bases` -/
+
+theorem rd_plus : rd .plus = blkAsc := by funext b; simp [rd]
+theorem rd_minus : rd .minus = blkDesc := by funext b; simp [rd]
+
+theorem bases_eq_readScan (bs : List Blk) (st : Strand) (hst : st ≠ .unstranded) :
+    bases ⟨bs, st⟩ = readScan st (if st = .plus then bs else bs.reverse) := by
+  cases st with
+  | plus => simp [bases, readScan, rd_plus, basesPlus_eq_flatMap]
+  | minus => simp [bases, readScan, rd_minus, basesMinus_eq_flatMap]
+  | unstranded => exact absurd rfl hst
+
+theorem bases_single (x : Blk) (st : Strand) (hst : st ≠ .unstranded) : bases ⟨[x], st⟩ = rd st x := by
+  rw [bases_eq_readScan _ _ hst]; simp
+
+theorem readScan_perm_basesPlus (st : Strand) (bs : List Blk) : (readScan st bs).Perm (basesPlus bs) := by
+  induction bs with
+  | nil => simp [basesPlus]
+  | cons b bs ih =>
+    simp only [readScan_cons, basesPlus]
+    refine List.Perm.append ?_ ih
+    unfold rd; split
+    · exact List.Perm.refl _
+    · exact List.reverse_perm _
+
+theorem strandRelativeTo_eq_compose (a b : Strand) : strandRelativeTo a b = compose b a := by
+  cases a <;> cases b <;> rfl
+
+theorem strandRelativeTo_comm (a b : Strand) : strandRelativeTo a b = strandRelativeTo b a := by
+  cases a <;> cases b <;> rfl
+
+/-! ### `toSingleIfOne` is transparent for the spec's observers -/
+
+theorem locationStrand_toSingleIfOne (X : Loc) : locationStrand? (toSingleIfOne X) = some X.strand := by
+  unfold toSingleIfOne; split <;> rfl
+
+theorem locationBlocks_toSingleIfOne (X : Loc) : locationBlocks (toSingleIfOne X) = X.blocks := by
+  unfold toSingleIfOne; split
+  · rename_i h; simp [locationBlocks, h]
+  · rfl
+
+theorem wfLocation_toSingleIfOne (X : Loc) (h : X.Canon) : wfLocation (toSingleIfOne X) = true := by
+  unfold toSingleIfOne; split
+  · rename_i b hb
+    have := (blocksValid_iff _).mp h.2.1 b (by simp [hb])
+    simpa [wfLocation] using this
+  · simpa [wfLocation] using h
+
+theorem resetStrand_toSingleIfOne (X : List Blk) (st ns : Strand) (hne : X ≠ [])
+    (hv : ∀ b ∈ X, b.1 ≤ b.2) :
+    resetStrand (toSingleIfOne ⟨X, st⟩) ns = .ok (toSingleIfOne ⟨sortBlocks ns X, ns⟩) := by
+  match X, hne, hv with
+  | [b], _, _ => simp [toSingleIfOne, resetStrand, sortBlocks]; rfl
+  | a :: b :: r, _, hv =>
+    have hl : (sortBlocks ns (a :: b :: r)).length = r.length + 2 := by
+      simp [sortBlocks]
+    simp only [toSingleIfOne, resetStrand, mkCompound, mkCompoundLoc_ok ns (by simp) hv]
+    generalize sortBlocks ns (a :: b :: r) = Y at hl
+    match Y, hl with
+    | _ :: _ :: _, _ => rfl
+
+/-! ### `optimize_blocks` on a constructor-sorted compound -/
+
+theorem optimizeLoc_true_ok (S1 : List Blk) (st : Strand)
+    (hsorted : sortBlocks st S1 = S1) (hne : combStart S1 ≠ []) :
+    optimizeLoc true ⟨S1, st⟩ = .ok (toSingleIfOne ⟨sortBlocks st (combStart S1), st⟩) := by
+  unfold optimizeLoc
+  have h1 := combineLoop_nil S1 none false
+  have h2 := combineLoop_needs_false true S1 none [] false
+  generalize combineLoop true S1 none [] false = r at h1 h2
+  obtain ⟨nb, needs⟩ := r
+  simp only at h1 h2
+  subst h1
+  cases needs with
+  | false =>
+    have := h2 rfl
+    simp only [List.reverse_nil, List.nil_append] at this
+    rw [this, hsorted]
+    simp
+    rfl
+  | true =>
+    have hv' : ∀ b ∈ combStart S1, b.1 ≤ b.2 :=
+      fun b hb => Nat.le_of_lt (normal_pos _ (combStart_normal S1) b hb)
+    have hemp : (combStart S1).isEmpty = false := by simpa using hne
+    simp [hemp, mkCompoundLoc_ok st hne hv']
+    rfl
+
+/-! ### non-overlapping layouts -/
+
+theorem nonOverlap_pairwise (L : List Blk) (hv : ∀ b ∈ L, b.1 ≤ b.2) (hno : nonOverlap L = true) :
+    L.Pairwise (fun a b => a.2 ≤ b.1) := by
+  induction L with
+  | nil => simp
+  | cons a t ih =>
+    cases t with
+    | nil => simp
+    | cons b r =>
+      simp only [nonOverlap, Bool.and_eq_true, decide_eq_true_eq] at hno
+      have ih' := ih (fun x hx => hv x (List.mem_cons_of_mem _ hx)) hno.2
+      rw [List.pairwise_cons]
+      refine ⟨?_, ih'⟩
+      intro c hc
+      rcases List.mem_cons.mp hc with rfl | hc
+      · exact hno.1
+      · have h1 := (List.pairwise_cons.mp ih').1 c hc
+        have h2 := hv b (by simp)
+        omega
+
+/-- disjoint non-empty blocks in ascending order have strictly increasing starts -/
+theorem fst_lt_of_asc (A : List Blk) (hp : A.Pairwise (fun a b => a.2 ≤ b.1)) (hpos : ∀ a ∈ A, a.1 < a.2) :
+    A.Pairwise (fun a b => a.1 < b.1) :=
+  hp.imp_of_mem (fun {a _} ha _ hab => Nat.lt_of_lt_of_le (hpos a ha) hab)
+
+theorem fst_lt_blkLe (s : Strand) (A : List Blk) (h : A.Pairwise (fun a b => a.1 < b.1)) :
+    A.Pairwise (fun a b => blkLe s a b = true) :=
+  h.imp (fun {a b} hab => blkLe_of_fst_lt s a b hab)
+
+/-! ### the multi-block walk, `rs < re` -/
+
+theorem compoundRel_pos (L : List Blk) (st : Strand) (s e : Nat) (rst : Strand)
+    (hst : st ≠ .unstranded) (hse : s < e) (he : e ≤ blocksLen L) :
+    ∃ F, compoundRelInterval ⟨L, st⟩ s e rst = .ok (toSingleIfOne ⟨F, strandRelativeTo rst st⟩)
+      ∧ Loc.Canon ⟨F, strandRelativeTo rst st⟩
+      ∧ (basesPlus F).Perm (((bases ⟨L, st⟩).drop s).take (e - s))
+      ∧ (nonOverlap L = true → (∀ b ∈ L, b.1 ≤ b.2) →
+          bases ⟨F, st⟩ = ((bases ⟨L, st⟩).drop s).take (e - s) ∧ normalBlocks F = true) := by
+  have hst' : st = .plus ∨ st = .minus := by cases st <;> simp at hst ⊢
+  generalize hscan : (if st = .plus then L else L.reverse) = scan
+  generalize hwant : ((bases ⟨L, st⟩).drop s).take (e - s) = want
+  have hscanlen : blocksLen scan = blocksLen L := by
+    subst hscan; split
+    · rfl
+    · exact blocksLen_reverse L
+  generalize hout : relWalk st scan s (e - s) = out
+  -- (a) the walk reads the slice
+  have hread : readScan st out = want := by
+    rw [← hout, relWalk_read st scan s (e - s) (by omega) (by omega), ← hwant,
+      bases_eq_readScan L st hst, hscan]
+  have hwantlen : want.length = e - s := by
+    rw [← hwant, bases_eq_readScan L st hst, hscan]
+    simp [length_readScan, hscanlen]; omega
+  have hout_ne : out ≠ [] := by
+    intro h; rw [h] at hread; simp at hread; rw [hread] at hwantlen; simp at hwantlen; omega
+  have hpos : ∀ x ∈ out, x.1 < x.2 := by
+    intro x hx
+    rw [← hout] at hx
+    obtain ⟨_, _, _, h, _⟩ := relWalk_inside st scan s (e - s) (by omega) x hx
+    exact h
+  have hout_v : ∀ x ∈ out, x.1 ≤ x.2 := fun x hx => Nat.le_of_lt (hpos x hx)
+  -- (b) constructor sort
+  generalize hS1 : sortBlocks st out = S1
+  have hS1p : S1.Perm out := hS1 ▸ sortBlocks_perm st out
+  have hS1v : ∀ x ∈ S1, x.1 ≤ x.2 := hS1 ▸ sortBlocks_valid st hout_v
+  have hS1s : sortBlocks st S1 = S1 := by
+    rw [← hS1]
+    exact List.mergeSort_of_pairwise (sortBlocks_pairwise st out)
+  have hexact : nonOverlap L = true → (∀ b ∈ L, b.1 ≤ b.2) →
+      S1.Pairwise (fun a b => a.1 < b.1) ∧
+        (if st = .minus then (basesPlus S1).reverse else basesPlus S1) = want := by
+    intro hno hLv
+    have hLp := nonOverlap_pairwise L hLv hno
+    rcases hst' with hp | hm
+    · subst hp
+      simp only [if_true] at hscan
+      subst hscan
+      have hop : out.Pairwise (fun a b => a.2 ≤ b.1) := by
+        rw [← hout]
+        exact relWalk_pairwise _ (by intro a b a' b' h1 h2 h3 h4 h5; omega) _ _ _ _ (by omega) hLp
+      have hlt := fst_lt_of_asc out hop hpos
+      have : S1 = out := by rw [← hS1]; exact sortBlocks_of_fst_lt _ hlt
+      subst this
+      refine ⟨hlt, ?_⟩
+      rw [← hread]
+      simp [readScan, rd_plus, basesPlus_eq_flatMap]
+    · subst hm
+      simp only [reduceCtorEq, if_false] at hscan
+      subst hscan
+      have hop : out.Pairwise (fun a b => b.2 ≤ a.1) := by
+        rw [← hout]
+        exact relWalk_pairwise _ (by intro a b a' b' h1 h2 h3 h4 h5; omega) _ _ _ _ (by omega)
+          (List.pairwise_reverse.mpr hLp)
+      have hop' : out.reverse.Pairwise (fun a b => a.2 ≤ b.1) := List.pairwise_reverse.mpr hop
+      have hlt := fst_lt_of_asc out.reverse hop' (fun a ha => hpos a (List.mem_reverse.mp ha))
+      have : S1 = out.reverse := by
+        rw [← hS1]
+        exact sortBlocks_eq_of_perm_sorted _ (List.reverse_perm out) (fst_lt_blkLe _ _ hlt)
+      subst this
+      refine ⟨hlt, ?_⟩
+      rw [← hread]
+      simp [readScan, rd_minus, ← basesMinus_eq_flatMap, ← basesMinus_reverse]
+  -- (c) combine
+  have hnb_b : basesPlus (combStart S1) = basesPlus S1 := combStart_bases S1 hS1v
+  have hnb_n := combStart_normal S1
+  have hnb_pos := normal_pos _ hnb_n
+  have hnb_v : ∀ b ∈ combStart S1, b.1 ≤ b.2 := fun b hb => Nat.le_of_lt (hnb_pos b hb)
+  have hchain : (basesPlus (combStart S1)).Perm want := by
+    rw [hnb_b, ← hread]
+    exact (basesPlus_perm hS1p).trans (readScan_perm_basesPlus st out).symm
+  have hnb_ne : combStart S1 ≠ [] := by
+    intro h; rw [h] at hchain
+    have := hchain.length_eq
+    simp [basesPlus] at this; omega
+  have hopt := optimizeLoc_true_ok S1 st hS1s hnb_ne
+  generalize hnb : combStart S1 = nb at *
+  have hS2ne := sortBlocks_ne_nil st hnb_ne
+  have hS2v := sortBlocks_valid st hnb_v
+  -- the model's answer
+  have hscanB : scanBlocks ⟨L, st⟩ = .ok scan := by
+    simp [scanBlocks, assertDirectional, hst', ← hscan, bind, Except.bind, pure, Except.pure]
+  have hI : ((s : Int) > (e : Int)) = False := by simp; omega
+  have hcomp : compoundRelInterval ⟨L, st⟩ s e rst =
+      (if strandRelativeTo rst st ≠ st then
+        resetStrand (toSingleIfOne ⟨sortBlocks st nb, st⟩) (strandRelativeTo rst st)
+       else .ok (toSingleIfOne ⟨sortBlocks st nb, st⟩)) := by
+    unfold compoundRelInterval
+    have c1 : ¬ ((s : Int) > (e : Int)) := by omega
+    have c2 : ¬ ((s : Int) < 0) := by omega
+    have c3 : ¬ ((e : Int) > ((Loc.len ⟨L, st⟩ : Nat) : Int)) := by simp [Loc.len]; omega
+    have c4 : ¬ ((s : Int) = (e : Int)) := by omega
+    have t1 : ((s : Int)).toNat = s := by simp
+    have t2 : ((e : Int) - (s : Int)).toNat = e - s := by omega
+    rw [if_neg c1, if_neg c2, if_neg c3, if_neg c4, hscanB]
+    simp only [bind, Except.bind, t1, t2, hout, mkCompoundLoc_ok st hout_ne hout_v, hS1, hopt]
+    rfl
+  by_cases hns : strandRelativeTo rst st = st
+  · -- same strand
+    refine ⟨sortBlocks st nb, ?_, ?_, ?_, ?_⟩
+    · rw [hcomp, hns]; simp
+    · rw [hns]; exact canon_sortBlocks st hnb_ne hnb_v
+    · exact (basesPlus_perm (sortBlocks_perm st nb)).trans hchain
+    · intro hno hLv
+      obtain ⟨hlt, hb⟩ := hexact hno hLv
+      have hnlt : nb.Pairwise (fun a b => a.1 < b.1) := by
+        have := (List.pairwise_map.mpr hlt).sublist (hnb ▸ combStart_starts S1)
+        exact List.pairwise_map.mp this
+      rw [sortBlocks_of_fst_lt _ hnlt, bases_mk, hnb_b]
+      exact ⟨hb, hnb_n⟩
+  · refine ⟨sortBlocks (strandRelativeTo rst st) (sortBlocks st nb), ?_, ?_, ?_, ?_⟩
+    · rw [hcomp, if_pos hns, resetStrand_toSingleIfOne _ _ _ hS2ne hS2v]
+    · exact canon_sortBlocks _ hS2ne hS2v
+    · exact (basesPlus_perm ((sortBlocks_perm _ _).trans (sortBlocks_perm st nb))).trans hchain
+    · intro hno hLv
+      obtain ⟨hlt, hb⟩ := hexact hno hLv
+      have hnlt : nb.Pairwise (fun a b => a.1 < b.1) := by
+        have := (List.pairwise_map.mpr hlt).sublist (hnb ▸ combStart_starts S1)
+        exact List.pairwise_map.mp this
+      rw [sortBlocks_of_fst_lt _ hnlt, sortBlocks_of_fst_lt _ hnlt, bases_mk, hnb_b]
+      exact ⟨hb, hnb_n⟩
+
+/-! ### the multi-block walk, `rs = re` -/
+
+theorem r2pWalk_isSome (p : Bool) (bs : List Blk) (r : Nat) (h : r < blocksLen bs) :
+    ∃ q, r2pWalk p bs r = some q := by
+  induction bs generalizing r with
+  | nil => simp [blocksLen] at h
+  | cons b bs ih =>
+    simp only [blocksLen] at h
+    unfold r2pWalk
+    split
+    · exact ⟨_, rfl⟩
+    · exact ih _ (by omega)
+
+theorem compoundR2P_ok (L : List Blk) (st : Strand) (hst : st = .plus ∨ st = .minus) (r : Nat)
+    (h : r < blocksLen L) : ∃ q : Nat, compoundR2P ⟨L, st⟩ r = .ok (q : Int) := by
+  have hlen : blocksLen (if st = .minus then L.reverse else L) = blocksLen L := by
+    split
+    · exact blocksLen_reverse L
+    · rfl
+  obtain ⟨q, hq⟩ := r2pWalk_isSome (st != .minus) (if st = .minus then L.reverse else L) r (by omega)
+  refine ⟨q, ?_⟩
+  have c : (0 ≤ (r : Int) ∧ (r : Int) < ((Loc.len ⟨L, st⟩ : Nat) : Int)) := by
+    simp [Loc.len]; omega
+  simp only [compoundR2P, assertDirectional, hst, if_true, bind, Except.bind, pure, Except.pure, c,
+    Int.toNat_natCast, hq]
+  simp
+
+theorem compoundRel_zero (L : List Blk) (st : Strand) (hst : st = .plus ∨ st = .minus) (s : Nat)
+    (rst : Strand) (hs : s ≤ blocksLen L) (hlen : 0 < blocksLen L) :
+    ∃ q : Nat, compoundRelInterval ⟨L, st⟩ s s rst = .ok (.single (q, q) (strandRelativeTo rst st)) := by
+  unfold compoundRelInterval
+  have c1 : ¬ ((s : Int) > (s : Int)) := by omega
+  have c2 : ¬ ((s : Int) < 0) := by omega
+  have c3 : ¬ ((s : Int) > ((Loc.len ⟨L, st⟩ : Nat) : Int)) := by simp [Loc.len]; omega
+  rw [if_neg c1, if_neg c2, if_neg c3, if_pos rfl]
+  by_cases hc : 0 < (s : Int) ∧ (s : Int) = ((Loc.len ⟨L, st⟩ : Nat) : Int)
+  · rw [if_pos hc]
+    have e : (s : Int) - 1 = ((s - 1 : Nat) : Int) := by omega
+    obtain ⟨q, hq⟩ := compoundR2P_ok L st hst (s - 1) (by omega)
+    rw [e, hq]
+    by_cases hp : st = .plus
+    · refine ⟨q + 1, ?_⟩
+      simp [bind, Except.bind, pure, Except.pure, hp, mkSingle]
+      omega
+    · refine ⟨q, ?_⟩
+      simp [bind, Except.bind, pure, Except.pure, hp, mkSingle]
+  · rw [if_neg hc]
+    have : s < blocksLen L := by
+      simp only [Loc.len] at hc; omega
+    obtain ⟨q, hq⟩ := compoundR2P_ok L st hst s this
+    refine ⟨q, ?_⟩
+    rw [hq]
+    simp [bind, Except.bind, mkSingle]
+    rfl
+
+theorem compoundRel_zero_len (L : List Blk) (st : Strand) (rst : Strand) (hlen : blocksLen L = 0) :
+    ans (compoundRelInterval ⟨L, st⟩ 0 0 rst) = none := by
+  unfold compoundRelInterval
+  simp [Loc.len, hlen, compoundR2P, assertDirectional, bind, Except.bind]
+  cases st <;> rfl
+
+/-! ### the spec predicate, reduced to its four obligations -/
+
+theorem okRelint_of (l : Location) (loc : Loc) (hl : toLoc l = some loc) (rs re : Int) (rst : Strand)
+    (hdir : loc.strand ≠ .unstranded) (hdom : relintDomain l rs re = true) (m : Location)
+    (hs : locationStrand? m = some (compose loc.strand rst))
+    (hwf : wfLocation m = true)
+    (hperm : (basesPlus (locationBlocks m)).Perm (((bases loc).drop rs.toNat).take (re - rs).toNat))
+    (hexact : nonOverlap loc.blocks = true →
+      bases ⟨locationBlocks m, loc.strand⟩ = ((bases loc).drop rs.toNat).take (re - rs).toNat
+      ∧ (rs < re → normalBlocks (locationBlocks m) = true)) :
+    okRelint l rs re rst (some m) = true := by
+  have hb : locationBases m = bases ⟨locationBlocks m, compose loc.strand rst⟩ ∧ m ≠ .empty := by
+    cases m with
+    | single b s =>
+      simp only [locationStrand?, Option.some.injEq] at hs
+      subst hs
+      exact ⟨rfl, by simp⟩
+    | compound c =>
+      simp only [locationStrand?, Option.some.injEq] at hs
+      rw [← hs]
+      exact ⟨rfl, by simp⟩
+    | empty => simp [locationStrand?] at hs
+  generalize hwant : ((bases loc).drop rs.toNat).take (re - rs).toNat = want at hperm hexact
+  have hgotperm : (locationBases m).Perm want := by
+    rw [hb.1, bases_mk]
+    split
+    · exact (List.reverse_perm _).trans hperm
+    · exact hperm
+  have hsort : sortNat (locationBases m) = sortNat want := sortNat_perm hgotperm
+  unfold okRelint
+  simp only [hl, hdom, not_true, if_false, Option.isNone_some, Bool.false_eq_true, and_false, hwant]
+  simp only [hs, hwf, beq_self_eq_true, Bool.true_and, Bool.and_eq_true]
+  by_cases hno : nonOverlap loc.blocks = true
+  · obtain ⟨hex, hnorm⟩ := hexact hno
+    simp only [hno, if_true, and_true]
+    refine ⟨?_, ?_⟩
+    · have h2 := hsort
+      rw [hb.1] at h2 ⊢
+      generalize compose loc.strand rst = ns at h2 ⊢
+      generalize locationBlocks m = F at h2 hex ⊢
+      obtain ⟨L, st⟩ := loc
+      simp only at hex hdir h2 ⊢
+      clear hwant hperm hgotperm hsort hb hnorm hexact hno hl hs
+      subst hex
+      cases st <;> cases ns <;> simp [bases_mk] at hdir h2 ⊢ <;> exact h2
+    · split
+      · rename_i hlt
+        simp [hnorm hlt, hb.2]
+      · rfl
+  · simp [hno, hsort]
+
+/-! ### the single-block class -/
+
+theorem singleRel_ok (b : Blk) (st : Strand) (hst : st = .plus ∨ st = .minus) (s e : Nat) (rst : Strand)
+    (hse : s ≤ e) (he : e ≤ b.len) :
+    singleRelInterval b st s e rst = .ok (.single (subBlk st b s e) (strandRelativeTo st rst)) := by
+  unfold singleRelInterval
+  have c : (0 ≤ (s : Int) ∧ (s : Int) ≤ (e : Int) ∧ (e : Int) ≤ ((b.len : Nat) : Int)) := by omega
+  rw [if_neg (by simpa using c)]
+  unfold Blk.len at he
+  rcases hst with hp | hm
+  · subst hp
+    have c2 : 0 ≤ (b.1 : Int) + s ∧ (b.1 : Int) + s ≤ (b.1 : Int) + e := by omega
+    have t1 : ((b.1 : Int) + s).toNat = b.1 + s := by omega
+    have t2 : ((b.1 : Int) + e).toNat = b.1 + e := by omega
+    simp only [if_true, mkSingle, c2, and_self, t1, t2, subBlk]
+    rfl
+  · subst hm
+    have c2 : 0 ≤ (b.2 : Int) - e ∧ (b.2 : Int) - e ≤ (b.2 : Int) - s := by omega
+    have t1 : ((b.2 : Int) - e).toNat = b.2 - e := by omega
+    have t2 : ((b.2 : Int) - s).toNat = b.2 - s := by omega
+    simp only [reduceCtorEq, if_false, if_true, mkSingle, c2, and_self, t1, t2, subBlk]
+    rfl
+
+theorem single_out (b : Blk) (st : Strand) (rs re : Int) (rst : Strand)
+    (hdom : relintDomain (.single b st) rs re = false) :
+    ans (singleRelInterval b st rs re rst) = none := by
+  unfold singleRelInterval
+  by_cases c : (0 ≤ rs ∧ rs ≤ re ∧ re ≤ ((b.len : Nat) : Int))
+  · rw [if_neg (by simpa using c)]
+    have : st = .unstranded := by
+      cases st <;> simp_all [relintDomain, toLoc, Strand.isDirectional, Loc.len, blocksLen]
+    subst this
+    rfl
+  · rw [if_pos c]; rfl
+
+theorem compound_out (loc : Loc) (rs re : Int) (rst : Strand)
+    (hdom : relintDomain (.compound loc) rs re = false) :
+    ans (compoundRelInterval loc rs re rst) = none := by
+  unfold compoundRelInterval
+  by_cases c1 : rs > re
+  · rw [if_pos c1]; rfl
+  rw [if_neg c1]
+  by_cases c2 : rs < 0
+  · rw [if_pos c2]; rfl
+  rw [if_neg c2]
+  by_cases c3 : re > ((loc.len : Nat) : Int)
+  · rw [if_pos c3]; rfl
+  rw [if_neg c3]
+  have : loc.strand = .unstranded := by
+    obtain ⟨L, st⟩ := loc
+    cases st <;> simp_all [relintDomain, toLoc, Strand.isDirectional] <;> omega
+  obtain ⟨L, st⟩ := loc
+  simp only at this
+  subst this
+  have hd : ¬ (Strand.unstranded = Strand.plus ∨ Strand.unstranded = Strand.minus) := by simp
+  simp only [compoundR2P, scanBlocks, assertDirectional, if_neg hd]
+  split <;> (try split) <;> rfl
+
+theorem strandRelativeTo_eq_compose' (a b : Strand) : strandRelativeTo a b = compose a b := by
+  cases a <;> cases b <;> rfl
+
+theorem subBlk_valid (st : Strand) (b : Blk) (s e : Nat) (hse : s ≤ e) :
+    (subBlk st b s e).1 ≤ (subBlk st b s e).2 := by
+  unfold subBlk; split <;> simp <;> omega
+
 theorem relInterval_ok (l : Location) (h : WF l) (rs re : Int) (rst : Strand) :
     okRelint l rs re rst (ans (relInterval l rs re rst)) = true := by
-  sorry
+  cases l with
+  | empty => simp [okRelint, toLoc, relInterval]
+  | single b st =>
+    simp only [relInterval]
+    by_cases hdom : relintDomain (.single b st) rs re = true
+    · have hd := hdom
+      simp only [relintDomain, toLoc, Bool.and_eq_true, decide_eq_true_eq, Loc.len, blocksLen] at hd
+      obtain ⟨⟨⟨hdir, h0⟩, hle⟩, hlen⟩ := hd
+      have hst : st = .plus ∨ st = .minus := by cases st <;> simp [Strand.isDirectional] at hdir ⊢
+      have hne : st ≠ .unstranded := by rcases hst with h | h <;> simp [h]
+      obtain ⟨s, rfl⟩ := Int.eq_ofNat_of_zero_le h0
+      obtain ⟨e, rfl⟩ := Int.eq_ofNat_of_zero_le (by omega : 0 ≤ re)
+      have hse : s ≤ e := by omega
+      have hlen := of_decide_eq_true hlen
+      have he : e ≤ b.len := by omega
+      have t2 : ((e : Int) - (s : Int)).toNat = e - s := by omega
+      rw [singleRel_ok b st hst s e rst hse he, ans_ok]
+      have hrd : rd st (subBlk st b s e) = ((bases ⟨[b], st⟩).drop s).take (e - s) := by
+        rw [bases_single b st hne, rd_subBlk st b s e hse he]
+      apply okRelint_of _ ⟨[b], st⟩ rfl _ _ _ hne hdom
+      · simp [locationStrand?, strandRelativeTo_eq_compose']
+      · simpa [wfLocation] using subBlk_valid st b s e hse
+      · simp only [Int.toNat_natCast, t2, locationBlocks, ← hrd]
+        simpa using (readScan_perm_basesPlus st [subBlk st b s e]).symm
+      · intro _
+        simp only [Int.toNat_natCast, t2, locationBlocks, ← hrd]
+        refine ⟨bases_single _ st hne, ?_⟩
+        intro hlt
+        have := (subBlk_inside st b s e (by omega) he).2.1
+        simpa [normalBlocks] using this
+    · have hdom' : relintDomain (.single b st) rs re = false := by simpa using hdom
+      have := single_out b st rs re rst hdom'
+      simp [okRelint, toLoc, hdom', this]
+  | compound loc =>
+    simp only [relInterval]
+    obtain ⟨L, st⟩ := loc
+    by_cases hdom : relintDomain (.compound ⟨L, st⟩) rs re = true
+    · have hd := hdom
+      simp only [relintDomain, toLoc, Bool.and_eq_true, decide_eq_true_eq, Loc.len] at hd
+      obtain ⟨⟨⟨hdir, h0⟩, hle⟩, hlen⟩ := hd
+      have hst : st = .plus ∨ st = .minus := by cases st <;> simp [Strand.isDirectional] at hdir ⊢
+      have hne : st ≠ .unstranded := by rcases hst with h | h <;> simp [h]
+      have hLv : ∀ b ∈ L, b.1 ≤ b.2 := (blocksValid_iff L).mp h.2.1
+      obtain ⟨s, rfl⟩ := Int.eq_ofNat_of_zero_le h0
+      obtain ⟨e, rfl⟩ := Int.eq_ofNat_of_zero_le (by omega : 0 ≤ re)
+      have hse : s ≤ e := by omega
+      have hlen := of_decide_eq_true hlen
+      have he : e ≤ blocksLen L := by omega
+      have t2 : ((e : Int) - (s : Int)).toNat = e - s := by omega
+      by_cases hlt : s < e
+      · obtain ⟨F, hF, hcanon, hperm, hex⟩ := compoundRel_pos L st s e rst hne hlt he
+        rw [hF, ans_ok]
+        apply okRelint_of _ ⟨L, st⟩ rfl _ _ _ hne hdom
+        · simp [locationStrand_toSingleIfOne, strandRelativeTo_eq_compose]
+        · exact wfLocation_toSingleIfOne _ hcanon
+        · simpa only [Int.toNat_natCast, t2, locationBlocks_toSingleIfOne] using hperm
+        · intro hno
+          have := hex hno hLv
+          simp only [Int.toNat_natCast, t2, locationBlocks_toSingleIfOne]
+          exact ⟨this.1, fun _ => this.2⟩
+      · have hes : e = s := by omega
+        subst hes
+        by_cases hz : blocksLen L = 0
+        · have hs0 : e = 0 := by omega
+          subst hs0
+          have := compoundRel_zero_len L st rst hz
+          simp only [Int.natCast_zero] at this ⊢
+          simp [okRelint, toLoc, this, Loc.len, hz]
+        · obtain ⟨q, hq⟩ := compoundRel_zero L st hst e rst he (by omega)
+          rw [hq, ans_ok]
+          apply okRelint_of _ ⟨L, st⟩ rfl _ _ _ hne hdom
+          · simp [locationStrand?, strandRelativeTo_eq_compose]
+          · simp [wfLocation]
+          · simp [locationBlocks, basesPlus, blkAsc]
+          · intro _
+            simp [locationBlocks, bases_single _ st hne, rd, blkAsc, blkDesc]
+    · have hdom' : relintDomain (.compound ⟨L, st⟩) rs re = false := by simpa using hdom
+      have := compound_out ⟨L, st⟩ rs re rst hdom'
+      simp [okRelint, toLoc, hdom', this]
 
 end BioCantor.Proofs
